@@ -951,6 +951,12 @@ def discharge_residual_obligations(ctx, fac, rule, max_ranks, PR, extra_env=None
             left += [a for a in atoms_of(c) if a.startswith("s")]
         label = "%s %s L%s" % (short(o.fn), o.kind, o.line)
         if left:
+            from .base import decide_site
+            dec_, how_ = decide_site(ctx, o)
+            if dec_ is True:
+                rep.ob(rule, label, True)
+                n += 1
+                continue
             rep.ob(rule, label, False, "panic site depends on slot bits outside the recognised summaries: cannot bound it", "%s line %s" % (pdb.where(o.fn), o.line))
             continue
         bad = None
@@ -2181,9 +2187,13 @@ def check_C05(ctx):
             k5v, _ = ctx.method(FIVE, "hand_rank_value", HR)
             sm = ctx.summ(key, [("r", ctx.hand(path, n))], sty, opaque={k5v})
             cnt = 0
+            from .base import decide_site
             for o in sm.obligations:
                 cnt += 1
-                rep.ob("C05.panic-site." + short(path).lower(), "%s %s L%s" % (short(o.fn), o.kind, o.line), o.cond[0] == "c" and bool(o.cond[1]),
+                okk_ = o.cond[0] == "c" and bool(o.cond[1])
+                if not okk_:
+                    okk_ = decide_site(ctx, o)[0] is True
+                rep.ob("C05.panic-site." + short(path).lower(), "%s %s L%s" % (short(o.fn), o.kind, o.line), okk_,
                        "panic site %s in %s is not discharged (index taken from the table out of range?)" % (o.kind, short(o.fn)), "%s line %s" % (pdb.where(o.fn), o.line))
             rep.floor("C05.panic-site." + short(path).lower(), cnt, 1)
             # every ranked candidate is made of slots of the receiver (so it is again card-or-blank)
@@ -2199,8 +2209,14 @@ def check_C05(ctx):
             for meth in ("hand_rank", "hand_rank_validated", "hand_rank_value", "hand_rank_value_validated"):
                 key, sty = ctx.method(path, meth, HR)
                 k_and, _ = ctx.method(path, "hand_rank_value_and_hand", HR)
-                sm = ctx.summ(key, [("r", ctx.hand(path, n))], sty, opaque={k_and})
-                for o in sm.obligations:
+                k_valid_, _ = ctx.method(path, "is_valid", HV)
+                # two summaries: with the validity test inlined for the panic sites *inside* it (they depend on the
+                # slot words), and with it left uninterpreted for everything else (arithmetic on the value, which is
+                # then independent of how validity was established)
+                sm_in = ctx.summ(key, [("r", ctx.hand(path, n))], sty, opaque={k_and})
+                sm_op = ctx.summ(key, [("r", ctx.hand(path, n))], sty, opaque={k_and, k_valid_})
+                inside = [o for o in sm_in.obligations if k_valid_ in o.stack or o.fn == k_valid_]
+                for o in inside + list(sm_op.obligations):
                     if "are_unique" in o.fn:
                         continue
                     okk = o.cond[0] == "c" and bool(o.cond[1])
@@ -2208,20 +2224,29 @@ def check_C05(ctx):
                         # arithmetic on the hand's value (e.g. in the name/class conversion): the value is a u16;
                         # discharge over all 65536 values
                         calls = {id(x): x for root in [o.cond] + list(o.pc) for x in walk(root) if x[0] == "call" and x[1].startswith("fn:")}
-                        if len(calls) == 1:
-                            cn = next(iter(calls.values()))
-                            if ty_of(cn) == "u16":
-                                va = atom("$v", "u16")
-                                c2 = substitute(o.cond, lambda nd: va if nd is cn else None)
-                                pc2 = [substitute(c, lambda nd: va if nd is cn else None) for c in o.pc]
-                                if set(atoms_of(c2)) <= {"$v"} and all(set(atoms_of(c)) <= {"$v"} for c in pc2):
-                                    okk = True
+                        u16s = [c_ for c_ in calls.values() if ty_of(c_) == "u16"]
+                        bools = [c_ for c_ in calls.values() if ty_of(c_) == "bool"]
+                        if len(u16s) == 1 and len(u16s) + len(bools) == len(calls) and len(bools) <= 2:
+                            # the hand's value (and the outcome of the validity test) stand for arbitrary values
+                            names_ = {id(u16s[0]): atom("$v", "u16")}
+                            for bi, b_ in enumerate(bools):
+                                names_[id(b_)] = atom("$b%d" % bi, "bool")
+                            c2 = substitute(o.cond, lambda nd: names_.get(id(nd)))
+                            pc2 = [substitute(c, lambda nd: names_.get(id(nd))) for c in o.pc]
+                            allowed = {"$v"} | {"$b%d" % bi for bi in range(len(bools))}
+                            if set(atoms_of(c2)) <= allowed and all(set(atoms_of(c)) <= allowed for c in pc2):
+                                okk = True
+                                from itertools import product as _prod2
+                                for bv_ in _prod2((0, 1), repeat=len(bools)):
                                     for v_ in range(65536):
                                         env = {"$v": v_}
+                                        env.update({"$b%d" % bi: x_ for bi, x_ in enumerate(bv_)})
                                         if all(cval(evaluate(pdb, c, env)) for c in pc2) and not cval(evaluate(pdb, c2, env)):
                                             okk = False
                                             break
-                                    rep.evals(65536)
+                                    if not okk:
+                                        break
+                                rep.evals(65536 << len(bools))
                         elif not calls:
                             # depends on slot words (e.g. arithmetic inside the card filter): every slot is one of the 53 constants
                             ats = sorted({a for root in [o.cond] + list(o.pc) for a in atoms_of(root)})
@@ -2244,6 +2269,9 @@ def check_C05(ctx):
                                         okk = False
                                         break
                                 rep.evals(53 ** len(ats))
+                    if not okk:
+                        from .base import decide_site
+                        okk = decide_site(ctx, o)[0] is True
                     rep.ob("C05.panic-site.entry", "%s::%s %s %s L%s" % (short(path), meth, short(o.fn), o.kind, o.line), okk, "panic site %s in %s" % (o.kind, short(o.fn)), pdb.where(o.fn))
             ctx.guard("V.are_unique." + short(path), premise_unique, ctx, path, n, "C05.are_unique", False)
     ctx.guard("C05.entries", entries)
